@@ -1,5 +1,163 @@
-import Gp.Lemmas.Layers.Ip6Dec2
-import Gp.Model.Layers.Ip6Ser
+import Gp.Lemmas.Layers.Ip6RtIp3
+/-
+  C06 (layer part `lip6`) — serialize (FixLengths) then decode returns the same layer and payload,
+  for IPv6 (with and without embedded hop-by-hop header), IPv6HopByHop / IPv6Destination (TLV options
+  with Xn+Y alignment and final padding to 8), IPv6Routing and IPv6Fragment.
+
+  * `wf` predicates are explicit in-range conditions (`IPv6.hdrWf`, `TlvExt.wf`, `Routing.wf`,
+    `Fragment.wf`); each has a concrete inhabitant below.
+  * `≈` (`IPv6.eqv`, `hbhEqv`, `optsView`): all public fields except Contents/Payload (stated
+    separately), ignoring the derived/hint fields of options (ActualLength, OptionAlignment) and
+    padding options (Pad1/PadN), which the serializer inserts and the decoder reports.
+  * payload = the buffer contents before SerializeTo; buffers are arbitrary `Inv` buffers.
+  * no error, no truncation flag: the decode results below are `.ok (_, false)` / `(_, false, .ok ())`.
+
+  The model is ip6.go WITH proposed fixes lip6-1 (final pad), lip6-4 (Length counts the hop-by-hop
+  header: no bogus truncation), lip6-5 (Pad1 is one byte), lip6-6 (options decoded inside the header,
+  trailing Pad1), lip6-8 (empty payload decodes).  On the unfixed tree every one of them is found by
+  the monitor (`lip6:roundtrip:*`).
+
+  KNOWN FINDING (jumbograms, > 65535 bytes): DecodeFromBytes keeps the hop-by-hop header inside
+  IPv6.Payload (pinned by the repository's TestIPv6JumbogramDecode) and SerializeTo stores the jumbo
+  length in the buffer only.  `roundtrip_full` is therefore false; `roundtrip_partial_*` assume the
+  IPv6 payload (including the hop-by-hop header) fits 65535 bytes; `jumbo_payload_keeps_hbh` is the
+  witness on the decode side.
+-/
 namespace Gp.C06.Ip6
-open Gp Gp.Ip6
+open Gp Gp.Ip6 Gp.SBuf Gp.C18 Gp.Gen.Ip6
+
+/-! ## IPv6 -/
+
+/-- Full statement: every in-range IPv6 layer over every payload (any size). -/
+def roundtrip_full : Prop :=
+  ∀ (l : IPv6) (b : SBuf) (old : IPv6) (x : Bytes), Inv b → l.hdrWf →
+    (match l.hopByHop with
+      | none => l.nextHeader ≠ 0
+      | some hb => hb.wf ∧ b.layers.contains layerTypeIPv6HopByHop = false) →
+    ∃ b' l' l'', serializeIPv6 l b true = .ok (b', l') ∧
+      decodeIp6 old (contents b') x = .ok (l'', false) ∧ l''.eqv l' ∧ l''.payload = contents b
+
+/-- Proved part 1: no hop-by-hop header, every payload of 0..65535 bytes. -/
+theorem roundtrip_partial_plain (l : IPv6) (b : SBuf) (old : IPv6) (x : Bytes) (h : Inv b) (hw : l.hdrWf)
+    (hnone : l.hopByHop = none) (hnh : l.nextHeader ≠ 0) (hs : (contents b).length ≤ 65535) :
+    ∃ b' l' l'', serializeIPv6 l b true = .ok (b', l') ∧
+      decodeIp6 old (contents b') x = .ok (l'', false) ∧ l''.eqv l' ∧ l''.payload = contents b := by
+  obtain ⟨b', l', l'', h1, -, -, -, h2, h3, h4, -⟩ := ip6_roundtrip_plain l b h hw hnone hnh hs old x
+  exact ⟨b', l', l'', h1, h2, h3, h4⟩
+
+/-- Proved part 2: embedded hop-by-hop header (any in-range option list, any alignments), payload
+    such that hop-by-hop header + payload fit 65535 bytes. -/
+theorem roundtrip_partial_hbh (l : IPv6) (hb : TlvExt) (b : SBuf) (old : IPv6) (x : Bytes) (h : Inv b)
+    (hw : l.hdrWf) (hsome : l.hopByHop = some hb) (hp : hb.plain)
+    (hlay : b.layers.contains layerTypeIPv6HopByHop = false)
+    (hs : encLen true hb.options + 2 + (contents b).length ≤ 65535) :
+    ∃ b' l' l'', serializeIPv6 l b true = .ok (b', l') ∧
+      decodeIp6 old (contents b') x = .ok (l'', false) ∧ l''.eqv l' ∧ l''.payload = contents b := by
+  obtain ⟨b', l', l'', h1, -, -, h2, h3, h4⟩ := ip6_roundtrip_hbh l hb b h hw hsome hp hlay hs old x
+  exact ⟨b', l', l'', h1, h2, h3, h4⟩
+
+/-- Payload of a decode outcome (for stating the witness below). -/
+def payloadOf (r : Res (IPv6 × Bool)) : Option Bytes :=
+  match r with
+  | .ok (l, _) => some l.payload
+  | _ => none
+
+/-- Witness for the known finding: a (truncated) jumbogram decodes without error and its Payload
+    starts with the 8 bytes of the hop-by-hop header instead of the bytes behind it. -/
+theorem jumbo_payload_keeps_hbh :
+    payloadOf (decodeIp6 IPv6.zero
+      ([0x60, 0, 0, 0, 0, 0, 0, 0x40, 0x20, 1, 0x0d, 0xb8, 0, 0, 0, 0, 0, 0, 0, 0, 0, 0, 0, 1,
+        0x20, 1, 0x0d, 0xb8, 0, 0, 0, 0, 0, 0, 0, 0, 0, 0, 0, 2, 0x3b, 0, 0xc2, 4, 0, 1, 0, 8] ++ [0xfe, 0xfe]) []) =
+      some [0x3b, 0, 0xc2, 4, 0, 1, 0, 8, 0xfe, 0xfe] := by decide
+
+/-- Non-vacuity of the hypotheses of `roundtrip_partial_hbh`: version 6 layer, hop-by-hop header
+    with an 8n+2-aligned option and a Pad1, 3-byte payload. -/
+def exHbh : TlvExt :=
+  { base := { ExtBase.zero with nextHeader := 59 },
+    options := [{ typ := 0x1e, len := 0, alen := 0, data := some [1, 2, 3, 4, 5], ax := 8, ay := 2 }, pad1] }
+
+example : exHbh.plain ∧ encLen true exHbh.options + 2 + 3 ≤ 65535 := by
+  refine ⟨⟨⟨by decide, ?_, by decide⟩, ?_⟩, by decide⟩
+  · intro o ho
+    simp [exHbh] at ho
+    rcases ho with rfl | rfl <;> decide
+  · intro o ho
+    simp [exHbh] at ho
+    rcases ho with rfl | rfl <;> decide
+
+example : ({ IPv6.zero with
+             version := 6, trafficClass := 0xb8, flowLabel := 0x12345, nextHeader := 0, hopLimit := 64,
+             srcIP := List.replicate 16 1, dstIP := List.replicate 16 2, hopByHop := some exHbh } : IPv6).hdrWf :=
+  ⟨by decide, by decide, by decide, by decide, by decide, by decide, by decide⟩
+
+/-! ## IPv6HopByHop / IPv6Destination on their own -/
+
+/-- Serialize (FixLengths) then decode an in-range extension header over any payload: no error, no
+    truncation, same next header, the header length that was written, the same non-padding options
+    in order, the same payload; Contents are the written bytes. -/
+theorem roundtrip_ext (kind : ExtKind) (e : TlvExt) (b : SBuf) (old : TlvExt) (x : Bytes) (h : Inv b)
+    (hw : e.wf) :
+    ∃ b' d, serializeTlvExt e b true = .ok (b', fixExt true e) ∧
+      decodeExt kind old (contents b') x = .ok (d, false) ∧
+      d.base.nextHeader = e.base.nextHeader ∧ d.base.headerLength = (fixExt true e).base.headerLength ∧
+      optsView d.options = optsView (fixExt true e).options ∧ d.base.payload = contents b ∧
+      d.base.contents ++ d.base.payload = contents b' := by
+  obtain ⟨hg, hr, hi, hb255⟩ := e.wf_facts hw
+  obtain ⟨hnh, -, hmax⟩ := hw
+  have h8 := encLen_mod8 e.options
+  have hmin := encLen_ge6 e.options
+  have hser := serializeTlvExt_closed e b true h hg hr
+  rw [if_neg (by omega)] at hser
+  obtain ⟨hc1, -, -⟩ := ext_result_contents b (encOpts true e.options)
+    [u8 e.base.nextHeader, u8 (extHdrLen true e)] h
+  have hehl : extHdrLen true e = ((encLen true e.options + 2) / 8 - 1) % 256 := by simp [extHdrLen]
+  have hspec := ext_decode_encoded old true e.base.nextHeader e.options (contents b) hnh hg hr hi h8 hmax hmin
+  have hdec : decodeExt kind old (contents (step (step b (.prepend (encOpts true e.options)))
+      (.prepend [u8 e.base.nextHeader, u8 (extHdrLen true e)]))) x =
+      .ok ((tlvExtSpec old ([u8 e.base.nextHeader, u8 (((encLen true e.options + 2) / 8 - 1) % 256)] ++
+        encOpts true e.options ++ contents b)).layer, false) := by
+    unfold decodeExt
+    rw [decodeTlvExt_eq_spec, hc1, hehl, hspec]
+  refine ⟨_, _, hser, hdec, ?_⟩
+  rw [hspec]
+  refine ⟨rfl, ?_, ?_, rfl, ?_⟩
+  · show (encLen true e.options + 2) / 8 - 1 = extHdrLen true e
+    rw [hehl, Nat.mod_eq_of_lt (by omega)]
+  · show optsView (decItems true e.options 2 ++ _) = optsView (e.options.map (fixOpt true))
+    simp only [if_true]
+    rw [optsView_append, optsView_padOpts, List.append_nil, optsView_decItems _ _ hb255]
+  · rw [hc1, hehl]
+
+/-! ## IPv6Routing, IPv6Fragment -/
+
+theorem roundtrip_routing (r : Routing) (b : SBuf) (x : Bytes) (h : Inv b) (hw : r.wf) :
+    ∃ b' d, serializeRouting r b = .ok b' ∧ decodeRouting ⟨contents b', x⟩ = (some d, false, .ok ()) ∧
+      d.base.nextHeader = r.base.nextHeader ∧ d.routingType = r.routingType ∧
+      d.segmentsLeft = r.segmentsLeft ∧ d.reserved = r.reserved ∧
+      d.sourceRoutingIPs = r.sourceRoutingIPs ∧ d.base.payload = contents b := by
+  have hc : RoutingConsistent r := ⟨by have := hw.2.2.2.1; omega, fun ip hip => Or.inr (hw.2.2.2.2.2 ip hip)⟩
+  refine ⟨_, { r with base := { contents := rtBytes r, payload := contents b, nextHeader := r.base.nextHeader,
+                                headerLength := r.sourceRoutingIPs.length * 2,
+                                actualLength := 8 + r.sourceRoutingIPs.length * 16 } },
+    serializeRouting_closed r b h hc, ?_, rfl, rfl, rfl, rfl, rfl, rfl⟩
+  rw [decodeRouting_eq_spec, contents_step_prepend _ _ h, routing_roundtrip r _ hw]
+
+theorem roundtrip_fragment (f : Fragment) (b : SBuf) (x : Bytes) (h : Inv b) (hw : f.wf) :
+    ∃ b', serializeFragment f b = .ok b' ∧
+      decodeFragment ⟨contents b', x⟩ =
+        (some { f with contents := fragBytes f, payload := contents b }, false, .ok ()) := by
+  refine ⟨_, serializeFragment_eq f b h, ?_⟩
+  rw [decodeFragment_eq_spec, contents_step_prepend _ _ h, fragment_roundtrip f _ hw]
+
+example : ({ contents := [], payload := [], nextHeader := 17, reserved1 := 0, fragmentOffset := 185,
+             reserved2 := 3, moreFragments := true, identification := 0xdeadbeef } : Fragment).wf := by decide
+
+example : ({ base := { ExtBase.zero with nextHeader := 59 }, routingType := 0, segmentsLeft := 1,
+             reserved := [0, 0, 0, 0], sourceRoutingIPs := [List.replicate 16 7] } : Routing).wf := by
+  refine ⟨by decide, rfl, by decide, rfl, by decide, ?_⟩
+  intro ip hip
+  simp at hip
+  subst hip
+  rfl
+
 end Gp.C06.Ip6
